@@ -77,7 +77,7 @@ class Native(types.ModuleType):
 _LOADED = {}
 
 
-def load(alias, platform, natives, osname="posix", pre=None, patch_os_exists=None):
+def load(alias, platform, natives, osname="posix", pre=None, patch_os_exists=None, patch_getpid=None):
     """Import /repo/psutil under `alias` as if sys.platform == platform. Returns (package, {native name: module}, lab)."""
     if alias in _LOADED:
         return _LOADED[alias]
@@ -87,6 +87,9 @@ def load(alias, platform, natives, osname="posix", pre=None, patch_os_exists=Non
     sys.platform, os.name = platform, osname
     if patch_os_exists is not None:
         os.path.exists = lambda p: True if p in patch_os_exists else saved_exists(p)
+    saved_getpid = os.getpid
+    if patch_getpid is not None:        # "the package is imported by process <patch_getpid>"
+        os.getpid = lambda: patch_getpid
     added = []
     try:
         pkgdir = os.path.join(REPO, "psutil")
@@ -113,6 +116,7 @@ def load(alias, platform, natives, osname="posix", pre=None, patch_os_exists=Non
     finally:
         sys.platform, os.name = old
         os.path.exists = saved_exists
+        os.getpid = saved_getpid
     # pristine state, restored by reset() before every use: harnesses program the lab and patch module attributes of the alias copy
     # (pid_exists, pids, net_if_addrs, os ...); nothing of that may survive into the next task of the same worker process
     lab.base_answers = dict(lab.answers)
